@@ -318,11 +318,14 @@ pub fn analyse_session(case: &Case, out: &Outcome) -> Analysis {
                                         && (f[1] == "w") == p.white_to_move()
                                         && f[2] == p.castling()
                                         && (f[3] == "-" || Some(f[3].to_string()) == p.ep_square());
+                                    // what `show` prints is the business of C11/C20 (not claimed): an observation only
                                     if !ok {
-                                        a.v("C14", "R6-show-mismatch", cmd_id, format!("`show` printed `{}` but the accepted position is {}", l, p.to_fen()));
+                                        a.probe("show printed a position that differs from the reference model's");
+                                    } else {
+                                        a.probe("show agreed with the reference model");
                                     }
                                 }
-                                None => a.v("C14", "R6-show-mismatch", cmd_id, "`show` printed no Fen line".into()),
+                                None => a.probe("show printed no Fen line"),
                             }
                         }
                     }
